@@ -59,6 +59,9 @@ func leafAcceptableHTML(l leaf, fnName string) (bool, string) {
 	case "GLOBAL":
 		return true, "" // checked separately: immutable with constant initialiser
 	case "CALL":
+		if l.Info == "encoding/json.Marshal#0" {
+			return true, "" // json.Marshal escapes <, >, & and U+2028/9 (C03.R2 decides the JSON positions)
+		}
 		if len(l.Inner) == 0 {
 			return false, "result of " + l.Info + " is written without the HTML escaper"
 		}
@@ -190,6 +193,39 @@ func htmlSinkOperands(c *Ctx, f *flow, rule string) {
 	for _, fn := range fns {
 		if fn.Object() != nil && !fn.Object().Exported() && fn.Signature.Recv() == nil {
 			onlyCalled[fn] = true
+		}
+		// … and unexported methods of unexported types (a small writer type): they cannot be reached from outside the
+		// package, and a use as a method value is caught below like any other use as a value
+		if fn.Object() != nil && !fn.Object().Exported() && fn.Signature.Recv() != nil {
+			rt := fn.Signature.Recv().Type()
+			if pt, ok := rt.(*types.Pointer); ok {
+				rt = pt.Elem()
+			}
+			if nt, ok := rt.(*types.Named); ok && !nt.Obj().Exported() && fn.Synthetic == "" {
+				// not an implementation of an interface method that is called dynamically: no interface of the package
+				// declares a method of this name
+				dynamic := false
+				if fn.Pkg != nil {
+					for _, m := range fn.Pkg.Members {
+						if tn, ok := m.(*ssa.Type); ok {
+							if it, ok := tn.Type().Underlying().(*types.Interface); ok {
+								for i := 0; i < it.NumMethods(); i++ {
+									if it.Method(i).Name() == fn.Name() {
+										dynamic = true
+									}
+								}
+							}
+						}
+					}
+				}
+				switch fn.Name() {
+				case "Write", "WriteString", "Render", "String", "Error", "Close", "Flush", "ServeHTTP":
+					dynamic = true
+				}
+				if !dynamic {
+					onlyCalled[fn] = true
+				}
+			}
 		}
 		// a local closure (writeAttr := func(name, value string) error {…}) whose only uses are calls in its parent
 		if fn.Object() == nil && fn.Parent() != nil {
